@@ -1,6 +1,8 @@
-"""Projection of observer objects onto abstract records (filled in per
-observer family; unknown classes project to their class name only)."""
+"""Projection of observer objects onto abstract records (TLA+ side:
+Observers.tla).  A change of representation only."""
 from __future__ import annotations
+
+from . import model
 
 PROJECTORS = {}
 
@@ -13,10 +15,64 @@ def projector(*names):
     return deco
 
 
-def project_observer(o) -> dict:
+def _features(o):
+    return {getattr(ft, "value", str(ft)): model.arr(a) for ft, a in o.features.items()}
+
+
+@projector("IsReadyObserver", "DurationObserver", "IsScheduledObserver", "PositionInJobObserver",
+           "RemainingOperationsObserver")
+def _plain(o, subs):
+    return {"f": _features(o)}
+
+
+@projector("EarliestStartTimeObserver")
+def _est(o, subs):
+    return {"f": _features(o), "est": model.arr(o.earliest_start_times)}
+
+
+@projector("IsCompletedObserver")
+def _completed(o, subs):
+    return {"f": _features(o),
+            "rm": [model.num(x) for x in o.remaining_ops_per_machine.reshape(-1)],
+            "rj": [model.num(x) for x in o.remaining_ops_per_job.reshape(-1)]}
+
+
+@projector("CompositeFeatureObserver")
+def _composite(o, subs):
+    def idx(c):
+        for i, x in enumerate(subs):
+            if x is c:
+                return i + 1
+        return 0
+    return {"f": _features(o), "comps": [idx(c) for c in o.feature_observers],
+            "cols": {getattr(ft, "value", str(ft)): list(v) for ft, v in o.column_names.items()}}
+
+
+@projector("UnscheduledOperationsObserver")
+def _unsched(o, subs):
+    return {"dq": [[model.op_ref(x) for x in dq] for dq in o.unscheduled_operations_per_job],
+            "n": int(o.num_unscheduled_operations)}
+
+
+@projector("HistoryObserver", "HistSub")
+def _hist(o, subs):
+    return {"hist": [model.sop_ref(s) for s in o.history]}
+
+
+@projector("MakespanReward")
+def _mk(o, subs):
+    return {"rewards": [model.num(r) for r in o.rewards], "cur": model.num(o.current_makespan)}
+
+
+@projector("IdleTimeReward")
+def _idle(o, subs):
+    return {"rewards": [model.num(r) for r in o.rewards]}
+
+
+def project_observer(o, subs=()) -> dict:
     name = type(o).__name__
+    rec = {"t": name, "name": name.replace("Observer", "")}
     fn = PROJECTORS.get(name)
-    rec = {"t": name}
     if fn is not None:
-        rec.update(fn(o))
+        rec.update(fn(o, subs))
     return rec
